@@ -79,6 +79,52 @@ func setRole(role, s string) (netip.AddrPort, error) {
 	return a.AddrPort, err
 }
 
+// setLoaded: Set on an object that already HOLDS an address (a flag with a default value, a second -flag on the command
+// line): what it holds afterwards is the new text's address and port - the previous value differs from it in the port only,
+// in the address only, or in both
+func setLoaded(k int) func(role, s string) (netip.AddrPort, error) {
+	return func(role, s string) (netip.AddrPort, error) {
+		pre := "192.168.1.1:12345"
+		if ap, err := parseRole(role, s); err == nil && ap.Addr().Is4() {
+			switch k % 3 {
+			case 0:
+				pre = fmt.Sprintf("%v:%d", ap.Addr(), map[bool]int{true: 54321, false: 60001}[ap.Port() != 54321])
+			case 1:
+				pre = fmt.Sprintf("10.9.8.7:%d", map[bool]int{true: int(ap.Port()), false: 60000}[ap.Port() != 0])
+			}
+		}
+		switch role {
+		case "bind":
+			var a types.BindAddr
+			if a.Set(pre) != nil {
+				a = types.BindAddr{}
+			}
+			err := a.Set(s)
+			return a.AddrPort, err
+		case "broadcast":
+			var a types.BroadcastAddr
+			if a.Set(pre) != nil {
+				a = types.BroadcastAddr{}
+			}
+			err := a.Set(s)
+			return a.AddrPort, err
+		case "listen":
+			var a types.ListenAddr
+			if a.Set(pre) != nil {
+				a = types.ListenAddr{}
+			}
+			err := a.Set(s)
+			return a.AddrPort, err
+		}
+		var a types.ControllerAddr
+		if a.Set(pre) != nil {
+			a = types.ControllerAddr{}
+		}
+		err := a.Set(s)
+		return a.AddrPort, err
+	}
+}
+
 func fromRole(role string, addr netip.Addr, port uint16) string {
 	switch role {
 	case "bind":
@@ -137,6 +183,9 @@ func runC15(o *opts) (*summary, error) {
 		if nset++; nset%4 == 0 || class == "odd" || class == "ports-odd" || class == "ports" || (first["t"] == "err" && nset%2 == 0) {
 			w.put(M{"fn": "parse", "role": role, "s": cps(s), "text": s, "out": parseOutVia(role, s, setRole), "entry": "Set"}, class+"-set", role+"|set|"+s)
 			w.put(M{"fn": "parse", "role": role, "s": cps(s), "text": s, "out": parseOutVia(role, s, mustRole), "entry": "MustParse"}, class+"-must", role+"|must|"+s)
+			if first["t"] == "ok" {
+				w.put(M{"fn": "parse", "role": role, "s": cps(s), "text": s, "out": parseOutVia(role, s, setLoaded(nset/4)), "entry": "Set-loaded"}, class+"-set-loaded", role+"|setl|"+s)
+			}
 		}
 	}
 
